@@ -10,14 +10,15 @@ THEOREMS = [
     (P + "root_is_never_exited_partial", "proved", "PARTIAL (half of clause 1): a step of either engine never removes the root from the configuration, on any chart"),
     (P + "exiting_never_orphans_partial", "proved", "PARTIAL (exit half of the parent clause): for every well-formed document, removing the exit set LargeMicroStep computed from a parent-closed configuration leaves a parent-closed configuration"),
     (P + "parents_stay_active_partial", "proved", "PARTIAL (clause 4 - every active state's parent is active - in full, for history-free charts): on every coherent chart numbered in pre-order without history states whose selectable transitions are plain (decidable EntryOk / SelPlain / SelPlainF, evaluated on the generated charts: suite theorem-hypotheses), after EVERY sequence of API operations on EITHER engine the configuration is parent-closed and made of the root and real states of the chart (which is the hypothesis ConfigOk of the structural theorems of C01/C03/C05: it holds of every reachable configuration). With history states the statement is false of the code (finding hist-shared)"),
-    (P + "parents_stay_active_of_document_partial", "proved", "the same for flatten of every well-formed document (coherence and numbering are theorems there)"),
+    (P + "parents_stay_active_of_document_partial", "proved", "the same for flatten of every well-formed document without <history> elements: coherence, numbering and EntryOk are theorems there (Proofs/EntryDoc.lean); only SelPlain/SelPlainF remain evaluated"),
+    ("UscxmlVerif.Proofs.EntryDoc.entryOk_flatten", "proved", "EntryOk (flatten d) for every well-formed history-free document"),
     (P + "step_keeps_parents", "proved", "one step of either engine keeps the invariant from any state that has it"),
     ("UscxmlVerif.Proofs.EntryClosed.descLoop_inv", "proved", "the entry set LargeMicroStep establishes (targets, their ancestors, default completions, initial transitions) is closed under parents and made of states of the chart"),
     ("UscxmlVerif.Proofs.ParentsFast.fast_descLoop_inv", "proved", "the same for FastMicroStep's entry loop"),
     (P + "step_keeps_set", "proved", "one step of either engine keeps that invariant from any state that has it"),
 ]
 FINISH = {"level": "exploration"}   # the four structural clauses of legality are decided by exploration only
-LEAN_FILES = ["UscxmlVerif.Properties.C02", "UscxmlVerif.Proofs.CfgInv", "UscxmlVerif.Proofs.Root", "UscxmlVerif.Proofs.ExitClosed", "UscxmlVerif.Proofs.EntryClosed", "UscxmlVerif.Proofs.Parents", "UscxmlVerif.Proofs.ParentsFast"]
+LEAN_FILES = ["UscxmlVerif.Properties.C02", "UscxmlVerif.Proofs.CfgInv", "UscxmlVerif.Proofs.Root", "UscxmlVerif.Proofs.ExitClosed", "UscxmlVerif.Proofs.EntryClosed", "UscxmlVerif.Proofs.Parents", "UscxmlVerif.Proofs.ParentsFast", "UscxmlVerif.Proofs.EntryDoc"]
 
 
 def cfgs_of(tokens):
@@ -87,7 +88,7 @@ def run_engine(ctx, engine, cases, suite):
 def run(ctx):
     ctx.setup()
     ctx.audit(THEOREMS, LEAN_FILES)
-    n = 2500 if ctx.tier == "quick" else 50000
+    n = 2500 if ctx.tier == "quick" else 15000
     cases = c01.load_corpus("C01") + c01.load_corpus("C02") + E.exhaustive_cases(ctx.tier) + E.gen_cases(ctx.rng, n, p_multi=0.4, p_history=0.4)
     for eng in ("large", "fast"):
         run_engine(ctx, eng, cases, "legal-" + eng)
